@@ -5,99 +5,129 @@ Import ListNotations.
 Open Scope string_scope.
 
 (* ---------- the call functions the two interpreters build at fuel n ---------- *)
-Definition icallf (cm : catchfn) (funs : list fundef) (n : nat) : callfn := fun f vs g =>
-  match find_fun funs f with
-  | None => Some (EX (err "undefined function"), g)
-  | Some d =>
-      match iexec cm funs n f (fbody d) (bind_params (fparams d) vs [], []) g with
-      | Fuel => None
-      | Res c _ g' => Some (call_result c, g')
+Definition icallf (cm : catchfn) (funs : list fundef) (clos : list clodef) (n : nat) : callfn := fun c vs g =>
+  match c with
+  | CFun f =>
+      match find_fun funs f with
+      | None => Some (EX (err "undefined function"), g)
+      | Some d =>
+          match iexec cm funs clos n f (fbody d) (bind_params (fparams d) vs [], []) g with
+          | Fuel => None
+          | Res c _ g' => Some (call_result c, g')
+          end
+      end
+  | CClo id oid cap =>
+      match nth_error clos id with
+      | None => Some (EX (VErr "no such closure"), g)
+      | Some cd =>
+          match iexec cm funs clos n (clo_name oid) (cbody cd) (bind_captured cap (bind_params (cparams cd) vs []), []) g with
+          | Fuel => None
+          | Res c _ g' => Some (call_result c, g')
+          end
       end
   end.
-Definition rcallf (cm : catchfn) (funs : list fundef) (n : nat) : callfn := fun f vs g =>
-  match find_fun funs f with
-  | None => Some (EX (err "undefined function"), g)
-  | Some d =>
-      match rexec cm funs n f (resolve [] [] (fbody d)) (bind_params (fparams d) vs [], []) g with
-      | Fuel => None
-      | Res c _ g' => Some (rcall_result c, g')
+Definition rcallf (cm : catchfn) (funs : list fundef) (clos : list clodef) (n : nat) : callfn := fun c vs g =>
+  match c with
+  | CFun f =>
+      match find_fun funs f with
+      | None => Some (EX (err "undefined function"), g)
+      | Some d =>
+          match rexec cm funs clos n f (resolve [] [] (fbody d)) (bind_params (fparams d) vs [], []) g with
+          | Fuel => None
+          | Res c _ g' => Some (rcall_result c, g')
+          end
+      end
+  | CClo id oid cap =>
+      match nth_error clos id with
+      | None => Some (EX (VErr "no such closure"), g)
+      | Some cd =>
+          match rexec cm funs clos n (clo_name oid) (resolve [] [] (cbody cd)) (bind_captured cap (bind_params (cparams cd) vs []), []) g with
+          | Fuel => None
+          | Res c _ g' => Some (rcall_result c, g')
+          end
       end
   end.
 
 Section Unfold.
 Variable cm : catchfn.
 Variable funs : list fundef.
+Variable clos : list clodef.
 Variables (n : nat) (fn : string) (fr : frame) (g : glob).
-Let ev := ieval (icallf cm funs n) funs fn.
-Let cond := icond (icallf cm funs n) funs fn.
+Let ev := ieval (icallf cm funs clos n) funs clos fn.
+Let cond := icond (icallf cm funs clos n) funs clos fn.
 
-Lemma iexec_0 s : iexec cm funs 0 fn s fr g = Fuel.
+Lemma iexec_0 s : iexec cm funs clos 0 fn s fr g = Fuel.
 Proof. reflexivity. Qed.
-Lemma iexec_skip : iexec cm funs (S n) fn SSkip fr g = Res INone fr g.
+Lemma iexec_skip : iexec cm funs clos (S n) fn SSkip fr g = Res INone fr g.
 Proof. reflexivity. Qed.
-Lemma iexec_seq a b : iexec cm funs (S n) fn (SSeq a b) fr g =
-  match iexec cm funs n fn a fr g with Res INone fr g => iexec cm funs n fn b fr g | r => r end.
+Lemma iexec_seq a b : iexec cm funs clos (S n) fn (SSeq a b) fr g =
+  match iexec cm funs clos n fn a fr g with Res INone fr g => iexec cm funs clos n fn b fr g | r => r end.
 Proof. reflexivity. Qed.
-Lemma iexec_expr e : iexec cm funs (S n) fn (SExpr e) fr g =
+Lemma iexec_expr e : iexec cm funs clos (S n) fn (SExpr e) fr g =
   match ev e fr g with
   | Res (EV _) fr g => Res INone fr g | Res (EX x) fr g => Res (IThrow x) fr g | Fuel => Fuel end.
 Proof. reflexivity. Qed.
-Lemma iexec_echo e : iexec cm funs (S n) fn (SEcho e) fr g =
+Lemma iexec_echo e : iexec cm funs clos (S n) fn (SEcho e) fr g =
   match ev e fr g with
   | Res (EV v) fr g => Res INone fr (emit (to_str v) g) | Res (EX x) fr g => Res (IThrow x) fr g | Fuel => Fuel end.
 Proof. reflexivity. Qed.
-Lemma iexec_push x e : iexec cm funs (S n) fn (SPush x e) fr g =
+Lemma iexec_push x e : iexec cm funs clos (S n) fn (SPush x e) fr g =
   match ev e fr g with
   | Res (EV v) fr g => let '(fr', g') := wr fn x (arr_push (rd fn x fr g) v) fr g in Res INone fr' g'
   | Res (EX x) fr g => Res (IThrow x) fr g | Fuel => Fuel end.
 Proof. reflexivity. Qed.
+Lemma iexec_setidx x k e : iexec cm funs clos (S n) fn (SSetIdx x k e) fr g =
+  match ev e fr g with
+  | Res (EV v) fr g => let '(fr', g') := wr fn x (arr_set (rd fn x fr g) (VInt k) v) fr g in Res INone fr' g'
+  | Res (EX x) fr g => Res (IThrow x) fr g | Fuel => Fuel end.
+Proof. reflexivity. Qed.
 Definition ielif (e : stmt) := fix elif (l : elifs) (fr : frame) (g : glob) : res ictl :=
   match l with
-  | EINil => iexec cm funs n fn e fr g
-  | EICons c b r => thr (cond c fr g) (fun t fr g => if t then iexec cm funs n fn b fr g else elif r fr g)
+  | EINil => iexec cm funs clos n fn e fr g
+  | EICons c b r => thr (cond c fr g) (fun t fr g => if t then iexec cm funs clos n fn b fr g else elif r fr g)
   end.
-Lemma iexec_if c t ei e : iexec cm funs (S n) fn (SIf c t ei e) fr g =
-  thr (cond c fr g) (fun b fr g => if b then iexec cm funs n fn t fr g else ielif e ei fr g).
+Lemma iexec_if c t ei e : iexec cm funs clos (S n) fn (SIf c t ei e) fr g =
+  thr (cond c fr g) (fun b fr g => if b then iexec cm funs clos n fn t fr g else ielif e ei fr g).
 Proof. reflexivity. Qed.
-Lemma iexec_while c b : iexec cm funs (S n) fn (SWhile c b) fr g =
+Lemma iexec_while c b : iexec cm funs clos (S n) fn (SWhile c b) fr g =
   thr (cond c fr g) (fun t fr g =>
     if t then
-      match iexec cm funs n fn b fr g with
+      match iexec cm funs clos n fn b fr g with
       | Fuel => Fuel
       | Res cb fr g =>
           match loop_ctl cb with
-          | LNext => iexec cm funs n fn (SWhile c b) fr g
+          | LNext => iexec cm funs clos n fn (SWhile c b) fr g
           | LExit c' => Res c' fr g
           end
       end
     else Res INone fr g).
 Proof. reflexivity. Qed.
-Lemma iexec_dowhile b c : iexec cm funs (S n) fn (SDoWhile b c) fr g =
-  match iexec cm funs n fn b fr g with
+Lemma iexec_dowhile b c : iexec cm funs clos (S n) fn (SDoWhile b c) fr g =
+  match iexec cm funs clos n fn b fr g with
   | Fuel => Fuel
   | Res cb fr g =>
       match loop_ctl cb with
-      | LNext => thr (cond c fr g) (fun t fr g => if t then iexec cm funs n fn (SDoWhile b c) fr g else Res INone fr g)
+      | LNext => thr (cond c fr g) (fun t fr g => if t then iexec cm funs clos n fn (SDoWhile b c) fr g else Res INone fr g)
       | LExit c' => Res c' fr g
       end
   end.
 Proof. reflexivity. Qed.
-Lemma iexec_for init c inc b : iexec cm funs (S n) fn (SFor init c inc b) fr g =
-  match ieval_each (icallf cm funs n) funs fn init fr g with
+Lemma iexec_for init c inc b : iexec cm funs clos (S n) fn (SFor init c inc b) fr g =
+  match ieval_each (icallf cm funs clos n) funs clos fn init fr g with
   | Fuel => Fuel
   | Res (Some x) fr g => Res (IThrow x) fr g
   | Res None fr g =>
-      thr (icond_for (icallf cm funs n) funs fn c fr g) (fun t fr g =>
+      thr (icond_for (icallf cm funs clos n) funs clos fn c fr g) (fun t fr g =>
         if t then
-          match iexec cm funs n fn b fr g with
+          match iexec cm funs clos n fn b fr g with
           | Fuel => Fuel
           | Res cb fr g =>
               match loop_ctl cb with
               | LNext =>
-                  match ieval_incs (icallf cm funs n) funs fn inc fr g with
+                  match ieval_incs (icallf cm funs clos n) funs clos fn inc fr g with
                   | Fuel => Fuel
                   | Res (Some x) fr g => Res (IThrow x) fr g
-                  | Res None fr g => iexec cm funs n fn (SFor ANil c inc b) fr g
+                  | Res None fr g => iexec cm funs clos n fn (SFor ANil c inc b) fr g
                   end
               | LExit c' => Res c' fr g
               end
@@ -111,7 +141,7 @@ Definition ieach (k : option string) (v : string) (b : stmt) := fix each (l : li
   | (kv, vv) :: r =>
       let '(fr1, g1) := wr fn v vv fr g in
       let '(fr2, g2) := match k with Some kx => wr fn kx kv fr1 g1 | None => (fr1, g1) end in
-      match iexec cm funs n fn b fr2 g2 with
+      match iexec cm funs clos n fn b fr2 g2 with
       | Fuel => Fuel
       | Res cb fr g =>
           match loop_ctl cb with
@@ -120,7 +150,7 @@ Definition ieach (k : option string) (v : string) (b : stmt) := fix each (l : li
           end
       end
   end.
-Lemma iexec_foreach a k v b : iexec cm funs (S n) fn (SForeach a k v b) fr g =
+Lemma iexec_foreach a k v b : iexec cm funs clos (S n) fn (SForeach a k v b) fr g =
   match ev a fr g with
   | Fuel => Fuel
   | Res (EX x) fr g => Res (IThrow x) fr g
@@ -132,7 +162,7 @@ Lemma iexec_foreach a k v b : iexec cm funs (S n) fn (SForeach a k v b) fr g =
   end.
 Proof. reflexivity. Qed.
 Definition irun_clause (b : stmt) (fr : frame) (g : glob) : res ictl :=
-  match iexec cm funs n fn b fr g with
+  match iexec cm funs clos n fn b fr g with
   | Fuel => Fuel
   | Res cb fr g => Res (switch_ctl cb) fr g
   end.
@@ -147,31 +177,31 @@ Definition icases (cl : clauses) (cv : value) := fix cases (l : clauses) (fr : f
       | Res (EV v) fr g => if switch_match cv v then irun_clause b fr g else cases r fr g
       end
   end.
-Lemma iexec_switch c cl : iexec cm funs (S n) fn (SSwitch c cl) fr g =
+Lemma iexec_switch c cl : iexec cm funs clos (S n) fn (SSwitch c cl) fr g =
   match ev c fr g with
   | Fuel => Fuel
   | Res (EX x) fr g => Res (IThrow x) fr g
   | Res (EV cv) fr g => icases cl cv cl fr g
   end.
 Proof. reflexivity. Qed.
-Lemma iexec_break k : iexec cm funs (S n) fn (SBreak k) fr g = Res (IBrk k) fr g.
+Lemma iexec_break k : iexec cm funs clos (S n) fn (SBreak k) fr g = Res (IBrk k) fr g.
 Proof. reflexivity. Qed.
-Lemma iexec_continue k : iexec cm funs (S n) fn (SContinue k) fr g = Res (ICnt k) fr g.
+Lemma iexec_continue k : iexec cm funs clos (S n) fn (SContinue k) fr g = Res (ICnt k) fr g.
 Proof. reflexivity. Qed.
-Lemma iexec_return_none : iexec cm funs (S n) fn (SReturn None) fr g = Res (IRet VNull) fr g.
+Lemma iexec_return_none : iexec cm funs clos (S n) fn (SReturn None) fr g = Res (IRet VNull) fr g.
 Proof. reflexivity. Qed.
-Lemma iexec_return e : iexec cm funs (S n) fn (SReturn (Some e)) fr g =
+Lemma iexec_return e : iexec cm funs clos (S n) fn (SReturn (Some e)) fr g =
   match ev e fr g with
   | Res (EV v) fr g => Res (IRet v) fr g | Res (EX x) fr g => Res (IThrow x) fr g | Fuel => Fuel end.
 Proof. reflexivity. Qed.
-Lemma iexec_static x init : iexec cm funs (S n) fn (SStatic x init) fr g =
+Lemma iexec_static x init : iexec cm funs clos (S n) fn (SStatic x init) fr g =
   if String.eqb fn "" then let '(fr', g') := wr fn x init fr g in Res INone fr' g'
   else
     let st := match sget (fn, x) (gstat g) with Some _ => gstat g | None => sset (fn, x) init (gstat g) end in
     Res INone (fst fr, x :: snd fr) (set_stat st g).
 Proof. reflexivity. Qed.
-Lemma iexec_try b cs f : iexec cm funs (S n) fn (STry b cs f) fr g =
-  match iexec cm funs n fn b fr (mark CTry g) with
+Lemma iexec_try b cs f : iexec cm funs clos (S n) fn (STry b cs f) fr g =
+  match iexec cm funs clos n fn b fr (mark CTry g) with
   | Fuel => Fuel
   | Res cb fr1 g1 =>
       match
@@ -180,7 +210,7 @@ Lemma iexec_try b cs f : iexec cm funs (S n) fn (STry b cs f) fr g =
             match find_catch cm cs x with
             | Some (xv, cbody) =>
                 let '(fr2, g2) := match xv with Some v => wr fn v x fr1 g1 | None => (fr1, g1) end in
-                iexec cm funs n fn cbody fr2 g2
+                iexec cm funs clos n fn cbody fr2 g2
             | None => Res cb fr1 g1
             end
         | _ => Res cb fr1 g1
@@ -188,7 +218,7 @@ Lemma iexec_try b cs f : iexec cm funs (S n) fn (STry b cs f) fr g =
       with
       | Fuel => Fuel
       | Res c fr3 g3 =>
-          match iexec cm funs n fn f fr3 (mark CFin g3) with
+          match iexec cm funs clos n fn f fr3 (mark CFin g3) with
           | Fuel => Fuel
           | Res INone fr4 g4 => Res c fr4 g4
           | Res cf fr4 g4 => Res cf fr4 g4
@@ -196,7 +226,7 @@ Lemma iexec_try b cs f : iexec cm funs (S n) fn (STry b cs f) fr g =
       end
   end.
 Proof. reflexivity. Qed.
-Lemma iexec_throw e : iexec cm funs (S n) fn (SThrow e) fr g =
+Lemma iexec_throw e : iexec cm funs clos (S n) fn (SThrow e) fr g =
   match ev e fr g with
   | Res (EV v) fr g => Res (IThrow (thrown_of v)) fr g
   | Res (EX x) fr g => Res (IThrow x) fr g
@@ -208,77 +238,83 @@ End Unfold.
 Section UnfoldR.
 Variable cm : catchfn.
 Variable funs : list fundef.
+Variable clos : list clodef.
 Variables (n : nat) (fn : string) (fr : frame) (g : glob).
-Let ev := reval (rcallf cm funs n) funs fn.
-Let cond := rcond (rcallf cm funs n) funs fn.
+Let ev := reval (rcallf cm funs clos n) funs clos fn.
+Let cond := rcond (rcallf cm funs clos n) funs clos fn.
 
-Lemma rexec_0 s : rexec cm funs 0 fn s fr g = Fuel.
+Lemma rexec_0 s : rexec cm funs clos 0 fn s fr g = Fuel.
 Proof. reflexivity. Qed.
-Lemma rexec_skip : rexec cm funs (S n) fn RSkip fr g = Res RNone fr g.
+Lemma rexec_skip : rexec cm funs clos (S n) fn RSkip fr g = Res RNone fr g.
 Proof. reflexivity. Qed.
-Lemma rexec_seq a b : rexec cm funs (S n) fn (RSeq a b) fr g =
-  match rexec cm funs n fn a fr g with Res RNone fr g => rexec cm funs n fn b fr g | r => r end.
+Lemma rexec_seq a b : rexec cm funs clos (S n) fn (RSeq a b) fr g =
+  match rexec cm funs clos n fn a fr g with Res RNone fr g => rexec cm funs clos n fn b fr g | r => r end.
 Proof. reflexivity. Qed.
-Lemma rexec_expr e : rexec cm funs (S n) fn (RExpr e) fr g =
+Lemma rexec_expr e : rexec cm funs clos (S n) fn (RExpr e) fr g =
   match ev e fr g with
   | Res (EV _) fr g => Res RNone fr g | Res (EX x) fr g => Res (RThrow x) fr g | Fuel => Fuel end.
 Proof. reflexivity. Qed.
-Lemma rexec_echo e : rexec cm funs (S n) fn (REcho e) fr g =
+Lemma rexec_echo e : rexec cm funs clos (S n) fn (REcho e) fr g =
   match ev e fr g with
   | Res (EV v) fr g => Res RNone fr (emit (to_str v) g) | Res (EX x) fr g => Res (RThrow x) fr g | Fuel => Fuel end.
 Proof. reflexivity. Qed.
-Lemma rexec_push x e : rexec cm funs (S n) fn (RPush x e) fr g =
+Lemma rexec_push x e : rexec cm funs clos (S n) fn (RPush x e) fr g =
   match ev e fr g with
   | Res (EV v) fr g => let '(fr', g') := wr fn x (arr_push (rd fn x fr g) v) fr g in Res RNone fr' g'
   | Res (EX x) fr g => Res (RThrow x) fr g | Fuel => Fuel end.
 Proof. reflexivity. Qed.
+Lemma rexec_setidx x k e : rexec cm funs clos (S n) fn (RSetIdx x k e) fr g =
+  match ev e fr g with
+  | Res (EV v) fr g => let '(fr', g') := wr fn x (arr_set (rd fn x fr g) (VInt k) v) fr g in Res RNone fr' g'
+  | Res (EX x) fr g => Res (RThrow x) fr g | Fuel => Fuel end.
+Proof. reflexivity. Qed.
 Definition relif (e : rstmt) := fix elif (l : relifs) (fr : frame) (g : glob) : res rctl :=
   match l with
-  | REINil => rexec cm funs n fn e fr g
-  | REICons c b r => rthr (cond c fr g) (fun t fr g => if t then rexec cm funs n fn b fr g else elif r fr g)
+  | REINil => rexec cm funs clos n fn e fr g
+  | REICons c b r => rthr (cond c fr g) (fun t fr g => if t then rexec cm funs clos n fn b fr g else elif r fr g)
   end.
-Lemma rexec_if c t ei e : rexec cm funs (S n) fn (RIf c t ei e) fr g =
-  rthr (cond c fr g) (fun b fr g => if b then rexec cm funs n fn t fr g else relif e ei fr g).
+Lemma rexec_if c t ei e : rexec cm funs clos (S n) fn (RIf c t ei e) fr g =
+  rthr (cond c fr g) (fun b fr g => if b then rexec cm funs clos n fn t fr g else relif e ei fr g).
 Proof. reflexivity. Qed.
-Lemma rexec_while id c b : rexec cm funs (S n) fn (RWhile id c b) fr g =
+Lemma rexec_while id c b : rexec cm funs clos (S n) fn (RWhile id c b) fr g =
   rthr (cond c fr g) (fun t fr g =>
     if t then
-      match rexec cm funs n fn b fr g with
+      match rexec cm funs clos n fn b fr g with
       | Fuel => Fuel
       | Res cb fr g =>
           match rloop_ctl id cb with
-          | RLNext => rexec cm funs n fn (RWhile id c b) fr g
+          | RLNext => rexec cm funs clos n fn (RWhile id c b) fr g
           | RLExit c' => Res c' fr g
           end
       end
     else Res RNone fr g).
 Proof. reflexivity. Qed.
-Lemma rexec_dowhile id b c : rexec cm funs (S n) fn (RDoWhile id b c) fr g =
-  match rexec cm funs n fn b fr g with
+Lemma rexec_dowhile id b c : rexec cm funs clos (S n) fn (RDoWhile id b c) fr g =
+  match rexec cm funs clos n fn b fr g with
   | Fuel => Fuel
   | Res cb fr g =>
       match rloop_ctl id cb with
-      | RLNext => rthr (cond c fr g) (fun t fr g => if t then rexec cm funs n fn (RDoWhile id b c) fr g else Res RNone fr g)
+      | RLNext => rthr (cond c fr g) (fun t fr g => if t then rexec cm funs clos n fn (RDoWhile id b c) fr g else Res RNone fr g)
       | RLExit c' => Res c' fr g
       end
   end.
 Proof. reflexivity. Qed.
-Lemma rexec_for id init c inc b : rexec cm funs (S n) fn (RFor id init c inc b) fr g =
-  match reval_each (rcallf cm funs n) funs fn init fr g with
+Lemma rexec_for id init c inc b : rexec cm funs clos (S n) fn (RFor id init c inc b) fr g =
+  match reval_each (rcallf cm funs clos n) funs clos fn init fr g with
   | Fuel => Fuel
   | Res (Some x) fr g => Res (RThrow x) fr g
   | Res None fr g =>
       rthr (cond c fr g) (fun t fr g =>
         if t then
-          match rexec cm funs n fn b fr g with
+          match rexec cm funs clos n fn b fr g with
           | Fuel => Fuel
           | Res cb fr g =>
               match rloop_ctl id cb with
               | RLNext =>
-                  match reval_each (rcallf cm funs n) funs fn inc fr g with
+                  match reval_each (rcallf cm funs clos n) funs clos fn inc fr g with
                   | Fuel => Fuel
                   | Res (Some x) fr g => Res (RThrow x) fr g
-                  | Res None fr g => rexec cm funs n fn (RFor id ANil c inc b) fr g
+                  | Res None fr g => rexec cm funs clos n fn (RFor id ANil c inc b) fr g
                   end
               | RLExit c' => Res c' fr g
               end
@@ -292,7 +328,7 @@ Definition reach (id : lid) (k : option string) (v : string) (b : rstmt) := fix 
   | (kv, vv) :: r =>
       let '(fr1, g1) := wr fn v vv fr g in
       let '(fr2, g2) := match k with Some kx => wr fn kx kv fr1 g1 | None => (fr1, g1) end in
-      match rexec cm funs n fn b fr2 g2 with
+      match rexec cm funs clos n fn b fr2 g2 with
       | Fuel => Fuel
       | Res cb fr g =>
           match rloop_ctl id cb with
@@ -301,7 +337,7 @@ Definition reach (id : lid) (k : option string) (v : string) (b : rstmt) := fix 
           end
       end
   end.
-Lemma rexec_foreach id a k v b : rexec cm funs (S n) fn (RForeach id a k v b) fr g =
+Lemma rexec_foreach id a k v b : rexec cm funs clos (S n) fn (RForeach id a k v b) fr g =
   match ev a fr g with
   | Fuel => Fuel
   | Res (EX x) fr g => Res (RThrow x) fr g
@@ -316,7 +352,7 @@ Definition rrunc (id : lid) := fix run (l : rclauses) (fr : frame) (g : glob) : 
   match l with
   | RCLNil => Res RNone fr g
   | RCLCase _ b r | RCLDefault b r =>
-      match rexec cm funs n fn b fr g with
+      match rexec cm funs clos n fn b fr g with
       | Fuel => Fuel
       | Res cb fr g =>
           match cb with
@@ -337,32 +373,32 @@ Definition rfind (id : lid) (cl : rclauses) (cv : value) := fix find (l : rclaus
       | Res (EV v) fr g => if switch_match cv v then rrunc id l fr g else find r fr g
       end
   end.
-Lemma rexec_switch id c cl : rexec cm funs (S n) fn (RSwitch id c cl) fr g =
+Lemma rexec_switch id c cl : rexec cm funs clos (S n) fn (RSwitch id c cl) fr g =
   match ev c fr g with
   | Fuel => Fuel
   | Res (EX x) fr g => Res (RThrow x) fr g
   | Res (EV cv) fr g => rfind id cl cv cl fr g
   end.
 Proof. reflexivity. Qed.
-Lemma rexec_brk l : rexec cm funs (S n) fn (RBrkTo l) fr g = Res (RBrk l) fr g.
+Lemma rexec_brk l : rexec cm funs clos (S n) fn (RBrkTo l) fr g = Res (RBrk l) fr g.
 Proof. reflexivity. Qed.
-Lemma rexec_cnt l : rexec cm funs (S n) fn (RCntTo l) fr g = Res (RCnt l) fr g.
+Lemma rexec_cnt l : rexec cm funs clos (S n) fn (RCntTo l) fr g = Res (RCnt l) fr g.
 Proof. reflexivity. Qed.
-Lemma rexec_bad : rexec cm funs (S n) fn RBad fr g =
+Lemma rexec_bad : rexec cm funs clos (S n) fn RBad fr g =
   Res (RThrow (err "'break'/'continue' not in the 'loop' or 'switch' context")) fr g.
 Proof. reflexivity. Qed.
-Lemma rexec_return_none : rexec cm funs (S n) fn (RReturn None) fr g = Res (RRet VNull) fr g.
+Lemma rexec_return_none : rexec cm funs clos (S n) fn (RReturn None) fr g = Res (RRet VNull) fr g.
 Proof. reflexivity. Qed.
-Lemma rexec_return e : rexec cm funs (S n) fn (RReturn (Some e)) fr g =
+Lemma rexec_return e : rexec cm funs clos (S n) fn (RReturn (Some e)) fr g =
   match ev e fr g with
   | Res (EV v) fr g => Res (RRet v) fr g | Res (EX x) fr g => Res (RThrow x) fr g | Fuel => Fuel end.
 Proof. reflexivity. Qed.
-Lemma rexec_static x init : rexec cm funs (S n) fn (RStatic x init) fr g =
+Lemma rexec_static x init : rexec cm funs clos (S n) fn (RStatic x init) fr g =
   let st := match sget (fn, x) (gstat g) with Some _ => gstat g | None => sset (fn, x) init (gstat g) end in
   Res RNone (fst fr, x :: snd fr) (set_stat st g).
 Proof. reflexivity. Qed.
-Lemma rexec_try b cs f : rexec cm funs (S n) fn (RTry b cs f) fr g =
-  match rexec cm funs n fn b fr (mark CTry g) with
+Lemma rexec_try b cs f : rexec cm funs clos (S n) fn (RTry b cs f) fr g =
+  match rexec cm funs clos n fn b fr (mark CTry g) with
   | Fuel => Fuel
   | Res cb fr1 g1 =>
       match
@@ -371,7 +407,7 @@ Lemma rexec_try b cs f : rexec cm funs (S n) fn (RTry b cs f) fr g =
             match handler_for cm cs x with
             | Some (xv, h) =>
                 let '(fr2, g2) := match xv with Some v => wr fn v x fr1 g1 | None => (fr1, g1) end in
-                rexec cm funs n fn h fr2 g2
+                rexec cm funs clos n fn h fr2 g2
             | None => Res cb fr1 g1
             end
         | _ => Res cb fr1 g1
@@ -379,7 +415,7 @@ Lemma rexec_try b cs f : rexec cm funs (S n) fn (RTry b cs f) fr g =
       with
       | Fuel => Fuel
       | Res c fr3 g3 =>
-          match rexec cm funs n fn f fr3 (mark CFin g3) with
+          match rexec cm funs clos n fn f fr3 (mark CFin g3) with
           | Fuel => Fuel
           | Res RNone fr4 g4 => Res c fr4 g4
           | Res cf fr4 g4 => Res cf fr4 g4
@@ -387,7 +423,7 @@ Lemma rexec_try b cs f : rexec cm funs (S n) fn (RTry b cs f) fr g =
       end
   end.
 Proof. reflexivity. Qed.
-Lemma rexec_throw e : rexec cm funs (S n) fn (RThrowSt e) fr g =
+Lemma rexec_throw e : rexec cm funs clos (S n) fn (RThrowSt e) fr g =
   match ev e fr g with
   | Res (EV v) fr g => Res (RThrow (thrown_of v)) fr g
   | Res (EX x) fr g => Res (RThrow x) fr g
@@ -404,10 +440,11 @@ Combined Scheme expr_args_ind from expr_ind2, args_ind2, marms_ind2.
 
 Section ExprEq.
 Variable funs : list fundef.
+Variable clos : list clodef.
 Variable fn : string.
 
 Lemma operand_reval cf e fr g z :
-  operand fn e fr g = Some z -> reval cf funs fn e fr g = Res (EV (VInt z)) fr g.
+  operand fn e fr g = Some z -> reval cf funs clos fn e fr g = Res (EV (VInt z)) fr g.
 Proof.
   destruct e; cbn [operand reval]; try discriminate.
   - destruct v; try discriminate. intros [= ->]. reflexivity.
@@ -417,7 +454,7 @@ Qed.
 (* VarFastAssign: when the fast path applies it computes what the slow path (the original
    right-hand side node) computes, without touching the state *)
 Lemma fast_assign_reval cf r fr g z :
-  fast_assign fn r fr g = Some z -> reval cf funs fn r fr g = Res (EV (VInt z)) fr g.
+  fast_assign fn r fr g = Some z -> reval cf funs clos fn r fr g = Res (EV (VInt z)) fr g.
 Proof.
   destruct r; cbn [fast_assign operand reval]; try discriminate.
   - destruct v; try discriminate. intros [= ->]. reflexivity.
@@ -433,7 +470,7 @@ Qed.
 
 (* VarIntLe *)
 Lemma var_int_le_reval cf a b fr g t :
-  var_int_le fn a b fr g = Some t -> reval cf funs fn (EBin Le a b) fr g = Res (EV (VBool t)) fr g.
+  var_int_le fn a b fr g = Some t -> reval cf funs clos fn (EBin Le a b) fr g = Res (EV (VBool t)) fr g.
 Proof.
   destruct a; cbn [var_int_le]; try discriminate. destruct b; try discriminate.
   destruct v; try discriminate. destruct (rd fn x fr g) eqn:E; try discriminate.
@@ -441,60 +478,60 @@ Proof.
 Qed.
 
 Definition islow cf o a b fr g :=
-  match ieval cf funs fn a fr g with
+  match ieval cf funs clos fn a fr g with
   | Res (EV va) fr g =>
-      match ieval cf funs fn b fr g with
+      match ieval cf funs clos fn b fr g with
       | Res (EV vb) fr g => Res (EV (binop o va vb)) fr g
       | r => r
       end
   | r => r
   end.
-Lemma ieval_bin cf o a b fr g : ieval cf funs fn (EBin o a b) fr g =
+Lemma ieval_bin cf o a b fr g : ieval cf funs clos fn (EBin o a b) fr g =
   match o with
   | Le => match var_int_le fn a b fr g with Some t => Res (EV (VBool t)) fr g | None => islow cf o a b fr g end
   | _ => islow cf o a b fr g
   end.
 Proof. destruct o; reflexivity. Qed.
-Lemma ieval_assign cf x r fr g : ieval cf funs fn (EAssign x r) fr g =
+Lemma ieval_assign cf x r fr g : ieval cf funs clos fn (EAssign x r) fr g =
   match fast_assign fn r fr g with
   | Some z => let '(fr', g') := wr fn x (VInt z) fr g in Res (EV (VInt z)) fr' g'
   | None =>
-      match ieval cf funs fn r fr g with
+      match ieval cf funs clos fn r fr g with
       | Res (EV v) fr g => let '(fr', g') := wr fn x v fr g in Res (EV v) fr' g'
       | r => r
       end
   end.
 Proof. reflexivity. Qed.
 
-Lemma reval_bin cf o a b fr g : reval cf funs fn (EBin o a b) fr g =
-  match reval cf funs fn a fr g with
+Lemma reval_bin cf o a b fr g : reval cf funs clos fn (EBin o a b) fr g =
+  match reval cf funs clos fn a fr g with
   | Res (EV va) fr g =>
-      match reval cf funs fn b fr g with
+      match reval cf funs clos fn b fr g with
       | Res (EV vb) fr g => Res (EV (binop o va vb)) fr g
       | r => r
       end
   | r => r
   end.
 Proof. reflexivity. Qed.
-Lemma reval_assign cf x r fr g : reval cf funs fn (EAssign x r) fr g =
-  match reval cf funs fn r fr g with
+Lemma reval_assign cf x r fr g : reval cf funs clos fn (EAssign x r) fr g =
+  match reval cf funs clos fn r fr g with
   | Res (EV v) fr g => let '(fr', g') := wr fn x v fr g in Res (EV v) fr' g'
   | r => r
   end.
 Proof. reflexivity. Qed.
 
 
-Lemma ieval_not cf a fr g : ieval cf funs fn (ENot a) fr g =
-  match ieval cf funs fn a fr g with
+Lemma ieval_not cf a fr g : ieval cf funs clos fn (ENot a) fr g =
+  match ieval cf funs clos fn a fr g with
   | Res (EV v) fr g => Res (EV (VBool (negb (truthy v)))) fr g
   | r => r
   end.
 Proof. reflexivity. Qed.
-Lemma ieval_and cf a b fr g : ieval cf funs fn (EAnd a b) fr g =
-  match ieval cf funs fn a fr g with
+Lemma ieval_and cf a b fr g : ieval cf funs clos fn (EAnd a b) fr g =
+  match ieval cf funs clos fn a fr g with
   | Res (EV va) fr g =>
       if truthy va then
-        match ieval cf funs fn b fr g with
+        match ieval cf funs clos fn b fr g with
         | Res (EV vb) fr g => Res (EV (VBool (truthy vb))) fr g
         | r => r
         end
@@ -502,32 +539,32 @@ Lemma ieval_and cf a b fr g : ieval cf funs fn (EAnd a b) fr g =
   | r => r
   end.
 Proof. reflexivity. Qed.
-Lemma ieval_or cf a b fr g : ieval cf funs fn (EOr a b) fr g =
-  match ieval cf funs fn a fr g with
+Lemma ieval_or cf a b fr g : ieval cf funs clos fn (EOr a b) fr g =
+  match ieval cf funs clos fn a fr g with
   | Res (EV va) fr g =>
       if truthy va then Res (EV (VBool true)) fr g
       else
-        match ieval cf funs fn b fr g with
+        match ieval cf funs clos fn b fr g with
         | Res (EV vb) fr g => Res (EV (VBool (truthy vb))) fr g
         | r => r
         end
   | r => r
   end.
 Proof. reflexivity. Qed.
-Lemma ieval_arr cf a fr g : ieval cf funs fn (EArr a) fr g =
-  match ieval_args cf funs fn a fr g with
+Lemma ieval_arr cf a fr g : ieval cf funs clos fn (EArr a) fr g =
+  match ieval_args cf funs clos fn a fr g with
   | Res (inl vs) fr g => Res (EV (VArr vs)) fr g
   | Res (inr x) fr g => Res (EX x) fr g
   | Fuel => Fuel
   end.
 Proof. reflexivity. Qed.
-Lemma ieval_call cf f a fr g : ieval cf funs fn (ECall f a) fr g =
+Lemma ieval_call cf f a fr g : ieval cf funs clos fn (ECall f a) fr g =
   match find_fun funs f with
   | None => Res (EX (err "undefined function")) fr g
   | Some _ =>
-      match ieval_args cf funs fn a fr g with
+      match ieval_args cf funs clos fn a fr g with
       | Res (inl vs) fr g =>
-          match cf f vs g with
+          match cf (CFun f) vs g with
           | Some (o, g') => Res o fr g'
           | None => Fuel
           end
@@ -536,10 +573,10 @@ Lemma ieval_call cf f a fr g : ieval cf funs fn (ECall f a) fr g =
       end
   end.
 Proof. reflexivity. Qed.
-Lemma ieval_args_cons cf e r fr g : ieval_args cf funs fn (ACons e r) fr g =
-  match ieval cf funs fn e fr g with
+Lemma ieval_args_cons cf e r fr g : ieval_args cf funs clos fn (ACons e r) fr g =
+  match ieval cf funs clos fn e fr g with
   | Res (EV v) fr g =>
-      match ieval_args cf funs fn r fr g with
+      match ieval_args cf funs clos fn r fr g with
       | Res (inl vs) fr g => Res (inl (v :: vs)) fr g
       | r => r
       end
@@ -548,17 +585,17 @@ Lemma ieval_args_cons cf e r fr g : ieval_args cf funs fn (ACons e r) fr g =
   end.
 Proof. reflexivity. Qed.
 
-Lemma reval_not cf a fr g : reval cf funs fn (ENot a) fr g =
-  match reval cf funs fn a fr g with
+Lemma reval_not cf a fr g : reval cf funs clos fn (ENot a) fr g =
+  match reval cf funs clos fn a fr g with
   | Res (EV v) fr g => Res (EV (VBool (negb (truthy v)))) fr g
   | r => r
   end.
 Proof. reflexivity. Qed.
-Lemma reval_and cf a b fr g : reval cf funs fn (EAnd a b) fr g =
-  match reval cf funs fn a fr g with
+Lemma reval_and cf a b fr g : reval cf funs clos fn (EAnd a b) fr g =
+  match reval cf funs clos fn a fr g with
   | Res (EV va) fr g =>
       if truthy va then
-        match reval cf funs fn b fr g with
+        match reval cf funs clos fn b fr g with
         | Res (EV vb) fr g => Res (EV (VBool (truthy vb))) fr g
         | r => r
         end
@@ -566,32 +603,32 @@ Lemma reval_and cf a b fr g : reval cf funs fn (EAnd a b) fr g =
   | r => r
   end.
 Proof. reflexivity. Qed.
-Lemma reval_or cf a b fr g : reval cf funs fn (EOr a b) fr g =
-  match reval cf funs fn a fr g with
+Lemma reval_or cf a b fr g : reval cf funs clos fn (EOr a b) fr g =
+  match reval cf funs clos fn a fr g with
   | Res (EV va) fr g =>
       if truthy va then Res (EV (VBool true)) fr g
       else
-        match reval cf funs fn b fr g with
+        match reval cf funs clos fn b fr g with
         | Res (EV vb) fr g => Res (EV (VBool (truthy vb))) fr g
         | r => r
         end
   | r => r
   end.
 Proof. reflexivity. Qed.
-Lemma reval_arr cf a fr g : reval cf funs fn (EArr a) fr g =
-  match reval_args cf funs fn a fr g with
+Lemma reval_arr cf a fr g : reval cf funs clos fn (EArr a) fr g =
+  match reval_args cf funs clos fn a fr g with
   | Res (inl vs) fr g => Res (EV (VArr vs)) fr g
   | Res (inr x) fr g => Res (EX x) fr g
   | Fuel => Fuel
   end.
 Proof. reflexivity. Qed.
-Lemma reval_call cf f a fr g : reval cf funs fn (ECall f a) fr g =
+Lemma reval_call cf f a fr g : reval cf funs clos fn (ECall f a) fr g =
   match find_fun funs f with
   | None => Res (EX (err "undefined function")) fr g
   | Some _ =>
-      match reval_args cf funs fn a fr g with
+      match reval_args cf funs clos fn a fr g with
       | Res (inl vs) fr g =>
-          match cf f vs g with
+          match cf (CFun f) vs g with
           | Some (o, g') => Res o fr g'
           | None => Fuel
           end
@@ -600,10 +637,10 @@ Lemma reval_call cf f a fr g : reval cf funs fn (ECall f a) fr g =
       end
   end.
 Proof. reflexivity. Qed.
-Lemma reval_args_cons cf e r fr g : reval_args cf funs fn (ACons e r) fr g =
-  match reval cf funs fn e fr g with
+Lemma reval_args_cons cf e r fr g : reval_args cf funs clos fn (ACons e r) fr g =
+  match reval cf funs clos fn e fr g with
   | Res (EV v) fr g =>
-      match reval_args cf funs fn r fr g with
+      match reval_args cf funs clos fn r fr g with
       | Res (inl vs) fr g => Res (inl (v :: vs)) fr g
       | r => r
       end
@@ -612,14 +649,14 @@ Lemma reval_args_cons cf e r fr g : reval_args cf funs fn (ACons e r) fr g =
   end.
 Proof. reflexivity. Qed.
 
-Lemma ieval_new cf cls m fr g : ieval cf funs fn (ENew cls m) fr g =
-  match ieval cf funs fn m fr g with
+Lemma ieval_new cf cls m fr g : ieval cf funs clos fn (ENew cls m) fr g =
+  match ieval cf funs clos fn m fr g with
   | Res (EV v) fr g => Res (EV (VObj (gnext g) cls (to_str v))) fr (bump g)
   | r => r
   end.
 Proof. reflexivity. Qed.
-Lemma ieval_msg cf e fr g : ieval cf funs fn (EMsg e) fr g =
-  match ieval cf funs fn e fr g with
+Lemma ieval_msg cf e fr g : ieval cf funs clos fn (EMsg e) fr g =
+  match ieval cf funs clos fn e fr g with
   | Res (EV v) fr g =>
       match msg_of v with
       | Some m => Res (EV (VStr m)) fr g
@@ -628,8 +665,8 @@ Lemma ieval_msg cf e fr g : ieval cf funs fn (EMsg e) fr g =
   | r => r
   end.
 Proof. reflexivity. Qed.
-Lemma ieval_class cf e fr g : ieval cf funs fn (EClass e) fr g =
-  match ieval cf funs fn e fr g with
+Lemma ieval_class cf e fr g : ieval cf funs clos fn (EClass e) fr g =
+  match ieval cf funs clos fn e fr g with
   | Res (EV v) fr g =>
       match class_of v with
       | Some c => Res (EV (VStr c)) fr g
@@ -638,10 +675,10 @@ Lemma ieval_class cf e fr g : ieval cf funs fn (EClass e) fr g =
   | r => r
   end.
 Proof. reflexivity. Qed.
-Lemma ieval_same cf a b fr g : ieval cf funs fn (ESame a b) fr g =
-  match ieval cf funs fn a fr g with
+Lemma ieval_same cf a b fr g : ieval cf funs clos fn (ESame a b) fr g =
+  match ieval cf funs clos fn a fr g with
   | Res (EV va) fr g =>
-      match ieval cf funs fn b fr g with
+      match ieval cf funs clos fn b fr g with
       | Res (EV vb) fr g => Res (EV (VBool (same_value va vb))) fr g
       | r => r
       end
@@ -649,14 +686,14 @@ Lemma ieval_same cf a b fr g : ieval cf funs fn (ESame a b) fr g =
   end.
 Proof. reflexivity. Qed.
 
-Lemma reval_new cf cls m fr g : reval cf funs fn (ENew cls m) fr g =
-  match reval cf funs fn m fr g with
+Lemma reval_new cf cls m fr g : reval cf funs clos fn (ENew cls m) fr g =
+  match reval cf funs clos fn m fr g with
   | Res (EV v) fr g => Res (EV (VObj (gnext g) cls (to_str v))) fr (bump g)
   | r => r
   end.
 Proof. reflexivity. Qed.
-Lemma reval_msg cf e fr g : reval cf funs fn (EMsg e) fr g =
-  match reval cf funs fn e fr g with
+Lemma reval_msg cf e fr g : reval cf funs clos fn (EMsg e) fr g =
+  match reval cf funs clos fn e fr g with
   | Res (EV v) fr g =>
       match msg_of v with
       | Some m => Res (EV (VStr m)) fr g
@@ -665,8 +702,8 @@ Lemma reval_msg cf e fr g : reval cf funs fn (EMsg e) fr g =
   | r => r
   end.
 Proof. reflexivity. Qed.
-Lemma reval_class cf e fr g : reval cf funs fn (EClass e) fr g =
-  match reval cf funs fn e fr g with
+Lemma reval_class cf e fr g : reval cf funs clos fn (EClass e) fr g =
+  match reval cf funs clos fn e fr g with
   | Res (EV v) fr g =>
       match class_of v with
       | Some c => Res (EV (VStr c)) fr g
@@ -675,10 +712,10 @@ Lemma reval_class cf e fr g : reval cf funs fn (EClass e) fr g =
   | r => r
   end.
 Proof. reflexivity. Qed.
-Lemma reval_same cf a b fr g : reval cf funs fn (ESame a b) fr g =
-  match reval cf funs fn a fr g with
+Lemma reval_same cf a b fr g : reval cf funs clos fn (ESame a b) fr g =
+  match reval cf funs clos fn a fr g with
   | Res (EV va) fr g =>
-      match reval cf funs fn b fr g with
+      match reval cf funs clos fn b fr g with
       | Res (EV vb) fr g => Res (EV (VBool (same_value va vb))) fr g
       | r => r
       end
@@ -686,75 +723,151 @@ Lemma reval_same cf a b fr g : reval cf funs fn (ESame a b) fr g =
   end.
 Proof. reflexivity. Qed.
 
-Lemma ieval_match cf s m fr g : ieval cf funs fn (EMatch s m) fr g =
-  match ieval cf funs fn s fr g with
-  | Res (EV v) fr g => ieval_arms cf funs fn v m fr g
+Lemma ieval_match cf s m fr g : ieval cf funs clos fn (EMatch s m) fr g =
+  match ieval cf funs clos fn s fr g with
+  | Res (EV v) fr g => ieval_arms cf funs clos fn v m fr g
   | r => r
   end.
 Proof. reflexivity. Qed.
-Lemma ieval_arms_nil cf v fr g : ieval_arms cf funs fn v MNil fr g = Res (EV VNull) fr g.
+Lemma ieval_arms_nil cf v fr g : ieval_arms cf funs clos fn v MNil fr g = Res (EV VNull) fr g.
 Proof. reflexivity. Qed.
-Lemma ieval_arms_default cf v e fr g : ieval_arms cf funs fn v (MDefault e) fr g = ieval cf funs fn e fr g.
+Lemma ieval_arms_default cf v e fr g : ieval_arms cf funs clos fn v (MDefault e) fr g = ieval cf funs clos fn e fr g.
 Proof. reflexivity. Qed.
-Lemma ieval_arms_cons cf v c e r fr g : ieval_arms cf funs fn v (MCons c e r) fr g =
-  match ieval_conds cf funs fn v c fr g with
-  | Res (inl true) fr g => ieval cf funs fn e fr g
-  | Res (inl false) fr g => ieval_arms cf funs fn v r fr g
+Lemma ieval_arms_cons cf v c e r fr g : ieval_arms cf funs clos fn v (MCons c e r) fr g =
+  match ieval_conds cf funs clos fn v c fr g with
+  | Res (inl true) fr g => ieval cf funs clos fn e fr g
+  | Res (inl false) fr g => ieval_arms cf funs clos fn v r fr g
   | Res (inr x) fr g => Res (EX x) fr g
   | Fuel => Fuel
   end.
 Proof. reflexivity. Qed.
-Lemma ieval_conds_nil cf v fr g : ieval_conds cf funs fn v ANil fr g = Res (inl false) fr g.
+Lemma ieval_conds_nil cf v fr g : ieval_conds cf funs clos fn v ANil fr g = Res (inl false) fr g.
 Proof. reflexivity. Qed.
-Lemma ieval_conds_cons cf v e r fr g : ieval_conds cf funs fn v (ACons e r) fr g =
-  match ieval cf funs fn e fr g with
-  | Res (EV w) fr g => if same_value v w then Res (inl true) fr g else ieval_conds cf funs fn v r fr g
+Lemma ieval_conds_cons cf v e r fr g : ieval_conds cf funs clos fn v (ACons e r) fr g =
+  match ieval cf funs clos fn e fr g with
+  | Res (EV w) fr g => if same_value v w then Res (inl true) fr g else ieval_conds cf funs clos fn v r fr g
   | Res (EX x) fr g => Res (inr x) fr g
   | Fuel => Fuel
   end.
 Proof. reflexivity. Qed.
 
-Lemma reval_match cf s m fr g : reval cf funs fn (EMatch s m) fr g =
-  match reval cf funs fn s fr g with
-  | Res (EV v) fr g => reval_arms cf funs fn v m fr g
+Lemma reval_match cf s m fr g : reval cf funs clos fn (EMatch s m) fr g =
+  match reval cf funs clos fn s fr g with
+  | Res (EV v) fr g => reval_arms cf funs clos fn v m fr g
   | r => r
   end.
 Proof. reflexivity. Qed.
-Lemma reval_arms_nil cf v fr g : reval_arms cf funs fn v MNil fr g = Res (EV VNull) fr g.
+Lemma reval_arms_nil cf v fr g : reval_arms cf funs clos fn v MNil fr g = Res (EV VNull) fr g.
 Proof. reflexivity. Qed.
-Lemma reval_arms_default cf v e fr g : reval_arms cf funs fn v (MDefault e) fr g = reval cf funs fn e fr g.
+Lemma reval_arms_default cf v e fr g : reval_arms cf funs clos fn v (MDefault e) fr g = reval cf funs clos fn e fr g.
 Proof. reflexivity. Qed.
-Lemma reval_arms_cons cf v c e r fr g : reval_arms cf funs fn v (MCons c e r) fr g =
-  match reval_conds cf funs fn v c fr g with
-  | Res (inl true) fr g => reval cf funs fn e fr g
-  | Res (inl false) fr g => reval_arms cf funs fn v r fr g
+Lemma reval_arms_cons cf v c e r fr g : reval_arms cf funs clos fn v (MCons c e r) fr g =
+  match reval_conds cf funs clos fn v c fr g with
+  | Res (inl true) fr g => reval cf funs clos fn e fr g
+  | Res (inl false) fr g => reval_arms cf funs clos fn v r fr g
   | Res (inr x) fr g => Res (EX x) fr g
   | Fuel => Fuel
   end.
 Proof. reflexivity. Qed.
-Lemma reval_conds_nil cf v fr g : reval_conds cf funs fn v ANil fr g = Res (inl false) fr g.
+Lemma reval_conds_nil cf v fr g : reval_conds cf funs clos fn v ANil fr g = Res (inl false) fr g.
 Proof. reflexivity. Qed.
-Lemma reval_conds_cons cf v e r fr g : reval_conds cf funs fn v (ACons e r) fr g =
-  match reval cf funs fn e fr g with
-  | Res (EV w) fr g => if same_value v w then Res (inl true) fr g else reval_conds cf funs fn v r fr g
+Lemma reval_conds_cons cf v e r fr g : reval_conds cf funs clos fn v (ACons e r) fr g =
+  match reval cf funs clos fn e fr g with
+  | Res (EV w) fr g => if same_value v w then Res (inl true) fr g else reval_conds cf funs clos fn v r fr g
   | Res (EX x) fr g => Res (inr x) fr g
   | Fuel => Fuel
   end.
 Proof. reflexivity. Qed.
 
-Lemma reval_postinc cf x fr g : reval cf funs fn (EPostInc x) fr g =
+Lemma ieval_idx cf x i fr g : ieval cf funs clos fn (EIdx x i) fr g =
+  match ieval cf funs clos fn i fr g with
+  | Res (EV iv) fr g => Res (EV (arr_get (rd fn x fr g) iv)) fr g
+  | r => r
+  end.
+Proof. reflexivity. Qed.
+Lemma ieval_idxinc cf pre x i fr g : ieval cf funs clos fn (EIdxInc pre x i) fr g =
+  match ieval cf funs clos fn i fr g with
+  | Res (EV iv) fr g =>
+      let '(nv, ov) := incr_value (arr_get (rd fn x fr g) iv) in
+      let '(fr', g') := wr fn x (arr_set (rd fn x fr g) iv nv) fr g in
+      Res (EV (if pre then nv else ov)) fr' g'
+  | r => r
+  end.
+Proof. reflexivity. Qed.
+Lemma ieval_closure cf id fr g : ieval cf funs clos fn (EClosure id) fr g =
+  match nth_error clos id with
+  | Some cd => Res (EV (VClo id (gnext g) (capture fn (cuses cd) fr g))) fr (bump g)
+  | None => Res (EX (VErr "no such closure")) fr g
+  end.
+Proof. reflexivity. Qed.
+Lemma ieval_callv cf f a fr g : ieval cf funs clos fn (ECallV f a) fr g =
+  match ieval cf funs clos fn f fr g with
+  | Res (EV (VClo id oid cap)) fr g =>
+      match ieval_args cf funs clos fn a fr g with
+      | Res (inl vs) fr g =>
+          match cf (CClo id oid cap) vs g with
+          | Some (o, g') => Res o fr g'
+          | None => Fuel
+          end
+      | Res (inr x) fr g => Res (EX x) fr g
+      | Fuel => Fuel
+      end
+  | Res (EV _) fr g => Res (EX (VErr "not callable")) fr g
+  | r => r
+  end.
+Proof. reflexivity. Qed.
+
+Lemma reval_idx cf x i fr g : reval cf funs clos fn (EIdx x i) fr g =
+  match reval cf funs clos fn i fr g with
+  | Res (EV iv) fr g => Res (EV (arr_get (rd fn x fr g) iv)) fr g
+  | r => r
+  end.
+Proof. reflexivity. Qed.
+Lemma reval_idxinc cf pre x i fr g : reval cf funs clos fn (EIdxInc pre x i) fr g =
+  match reval cf funs clos fn i fr g with
+  | Res (EV iv) fr g =>
+      let '(nv, ov) := incr_value (arr_get (rd fn x fr g) iv) in
+      let '(fr', g') := wr fn x (arr_set (rd fn x fr g) iv nv) fr g in
+      Res (EV (if pre then nv else ov)) fr' g'
+  | r => r
+  end.
+Proof. reflexivity. Qed.
+Lemma reval_closure cf id fr g : reval cf funs clos fn (EClosure id) fr g =
+  match nth_error clos id with
+  | Some cd => Res (EV (VClo id (gnext g) (capture fn (cuses cd) fr g))) fr (bump g)
+  | None => Res (EX (VErr "no such closure")) fr g
+  end.
+Proof. reflexivity. Qed.
+Lemma reval_callv cf f a fr g : reval cf funs clos fn (ECallV f a) fr g =
+  match reval cf funs clos fn f fr g with
+  | Res (EV (VClo id oid cap)) fr g =>
+      match reval_args cf funs clos fn a fr g with
+      | Res (inl vs) fr g =>
+          match cf (CClo id oid cap) vs g with
+          | Some (o, g') => Res o fr g'
+          | None => Fuel
+          end
+      | Res (inr x) fr g => Res (EX x) fr g
+      | Fuel => Fuel
+      end
+  | Res (EV _) fr g => Res (EX (VErr "not callable")) fr g
+  | r => r
+  end.
+Proof. reflexivity. Qed.
+
+Lemma reval_postinc cf x fr g : reval cf funs clos fn (EPostInc x) fr g =
   let '(nv, ov) := incr_value (rd fn x fr g) in
   let '(fr', g') := wr fn x nv fr g in Res (EV ov) fr' g'.
 Proof. reflexivity. Qed.
 
 Variables cf1 cf2 : callfn.
-Hypothesis cf_eq : forall f vs g, cf1 f vs g = cf2 f vs g.
+Hypothesis cf_eq : forall c vs g, cf1 c vs g = cf2 c vs g.
 
 Lemma ieval_reval_both :
-  (forall e, forall fr g, ieval cf1 funs fn e fr g = reval cf2 funs fn e fr g) /\
-  (forall a, (forall fr g, ieval_args cf1 funs fn a fr g = reval_args cf2 funs fn a fr g) /\
-             (forall v fr g, ieval_conds cf1 funs fn v a fr g = reval_conds cf2 funs fn v a fr g)) /\
-  (forall m, forall v fr g, ieval_arms cf1 funs fn v m fr g = reval_arms cf2 funs fn v m fr g).
+  (forall e, forall fr g, ieval cf1 funs clos fn e fr g = reval cf2 funs clos fn e fr g) /\
+  (forall a, (forall fr g, ieval_args cf1 funs clos fn a fr g = reval_args cf2 funs clos fn a fr g) /\
+             (forall v fr g, ieval_conds cf1 funs clos fn v a fr g = reval_conds cf2 funs clos fn v a fr g)) /\
+  (forall m, forall v fr g, ieval_arms cf1 funs clos fn v m fr g = reval_arms cf2 funs clos fn v m fr g).
 Proof.
   apply expr_args_ind; intros; try reflexivity;
     try rewrite ieval_bin; try rewrite ieval_assign, reval_assign;
@@ -762,18 +875,20 @@ Proof.
     try rewrite ieval_arr, reval_arr; try rewrite ieval_call, reval_call;
     try rewrite ieval_new, reval_new; try rewrite ieval_msg, reval_msg;
     try rewrite ieval_class, reval_class; try rewrite ieval_same, reval_same;
-    try rewrite ieval_match, reval_match.
+    try rewrite ieval_match, reval_match;
+    try rewrite ieval_idx, reval_idx; try rewrite ieval_idxinc, reval_idxinc;
+    try rewrite ieval_callv, reval_callv.
   - (* EBin *)
-    assert (S : islow cf1 o a b fr g = reval cf2 funs fn (EBin o a b) fr g).
-    { unfold islow. rewrite reval_bin. rewrite H. destruct (reval cf2 funs fn a fr g) as [|[va|x] fr0 g0]; try reflexivity.
+    assert (S : islow cf1 o a b fr g = reval cf2 funs clos fn (EBin o a b) fr g).
+    { unfold islow. rewrite reval_bin. rewrite H. destruct (reval cf2 funs clos fn a fr g) as [|[va|x] fr0 g0]; try reflexivity.
       rewrite H0. reflexivity. }
     destruct o; try exact S.
     destruct (var_int_le fn a b fr g) as [t|] eqn:E; [|exact S].
     symmetry. apply var_int_le_reval. exact E.
   - rewrite H. reflexivity.
-  - rewrite H. destruct (reval cf2 funs fn a fr g) as [|[va|x] fr0 g0]; try reflexivity.
+  - rewrite H. destruct (reval cf2 funs clos fn a fr g) as [|[va|x] fr0 g0]; try reflexivity.
     destruct (truthy va); [|reflexivity]. rewrite H0. reflexivity.
-  - rewrite H. destruct (reval cf2 funs fn a fr g) as [|[va|x] fr0 g0]; try reflexivity.
+  - rewrite H. destruct (reval cf2 funs clos fn a fr g) as [|[va|x] fr0 g0]; try reflexivity.
     destruct (truthy va); [reflexivity|]. rewrite H0. reflexivity.
   - (* EAssign *)
     destruct (fast_assign fn e fr g) as [z|] eqn:E.
@@ -782,58 +897,66 @@ Proof.
   - (* EArr *) destruct H as [H _]. rewrite H. reflexivity.
   - (* ECall *)
     destruct H as [H _]. destruct (find_fun funs f); [|reflexivity]. rewrite H.
-    destruct (reval_args cf2 funs fn a fr g) as [|[vs|x] fr0 g0]; try reflexivity.
+    destruct (reval_args cf2 funs clos fn a fr g) as [|[vs|x] fr0 g0]; try reflexivity.
     rewrite cf_eq. reflexivity.
   - rewrite H. reflexivity.
   - rewrite H. reflexivity.
   - rewrite H. reflexivity.
-  - rewrite H. destruct (reval cf2 funs fn a fr g) as [|[va|x] fr0 g0]; try reflexivity.
+  - rewrite H. destruct (reval cf2 funs clos fn a fr g) as [|[va|x] fr0 g0]; try reflexivity.
     rewrite H0. reflexivity.
+  - (* EIdx *) rewrite H. reflexivity.
+  - (* EIdxInc *) rewrite H. reflexivity.
+  - (* ECallV *)
+    destruct H0 as [H0 _]. rewrite H.
+    destruct (reval cf2 funs clos fn f fr g) as [|[v|x] fr0 g0]; try reflexivity.
+    destruct v; try reflexivity. rewrite H0.
+    destruct (reval_args cf2 funs clos fn a fr0 g0) as [|[vs|x] fr1 g1]; try reflexivity.
+    rewrite cf_eq. reflexivity.
   - (* EMatch *)
-    rewrite H. destruct (reval cf2 funs fn s fr g) as [|[v|x] fr0 g0]; try reflexivity. apply H0.
+    rewrite H. destruct (reval cf2 funs clos fn s fr g) as [|[v|x] fr0 g0]; try reflexivity. apply H0.
   - (* ANil *) split; reflexivity.
   - (* ACons *)
     destruct H0 as [Ha Hc]. split; intros.
     + rewrite ieval_args_cons, reval_args_cons, H.
-      destruct (reval cf2 funs fn e fr g) as [|[v|x] fr0 g0]; try reflexivity. rewrite Ha. reflexivity.
+      destruct (reval cf2 funs clos fn e fr g) as [|[v|x] fr0 g0]; try reflexivity. rewrite Ha. reflexivity.
     + rewrite ieval_conds_cons, reval_conds_cons, H.
-      destruct (reval cf2 funs fn e fr g) as [|[w|x] fr0 g0]; try reflexivity.
+      destruct (reval cf2 funs clos fn e fr g) as [|[w|x] fr0 g0]; try reflexivity.
       destruct (same_value v w); [reflexivity|apply Hc].
   - (* MDefault *) rewrite ieval_arms_default, reval_arms_default. apply H.
   - (* MCons *)
     destruct H as [_ Hc]. rewrite ieval_arms_cons, reval_arms_cons, Hc.
-    destruct (reval_conds cf2 funs fn v c fr g) as [|[[|]|x] fr0 g0]; try reflexivity; auto.
+    destruct (reval_conds cf2 funs clos fn v c fr g) as [|[[|]|x] fr0 g0]; try reflexivity; auto.
 Qed.
 
-Lemma ieval_reval e fr g : ieval cf1 funs fn e fr g = reval cf2 funs fn e fr g.
+Lemma ieval_reval e fr g : ieval cf1 funs clos fn e fr g = reval cf2 funs clos fn e fr g.
 Proof. apply (proj1 ieval_reval_both). Qed.
 
-Lemma ieval_each_reval a fr g : ieval_each cf1 funs fn a fr g = reval_each cf2 funs fn a fr g.
+Lemma ieval_each_reval a fr g : ieval_each cf1 funs clos fn a fr g = reval_each cf2 funs clos fn a fr g.
 Proof.
   revert fr g. induction a; intros; simpl; [reflexivity|].
-  rewrite ieval_reval. destruct (reval cf2 funs fn e fr g) as [|[v|x] fr0 g0]; auto.
+  rewrite ieval_reval. destruct (reval cf2 funs clos fn e fr g) as [|[v|x] fr0 g0]; auto.
 Qed.
 
 (* VarStmtIncr computes what the $x++ it replaced computes (its value is discarded) *)
-Lemma ieval_incs_reval a fr g : ieval_incs cf1 funs fn a fr g = reval_each cf2 funs fn a fr g.
+Lemma ieval_incs_reval a fr g : ieval_incs cf1 funs clos fn a fr g = reval_each cf2 funs clos fn a fr g.
 Proof.
   revert fr g. induction a; intros; [reflexivity|].
-  assert (G : match ieval cf1 funs fn e fr g with
-              | Res (EV _) fr0 g0 => ieval_incs cf1 funs fn a fr0 g0
+  assert (G : match ieval cf1 funs clos fn e fr g with
+              | Res (EV _) fr0 g0 => ieval_incs cf1 funs clos fn a fr0 g0
               | Res (EX x) fr0 g0 => Res (Some x) fr0 g0
               | Fuel => Fuel
-              end = reval_each cf2 funs fn (ACons e a) fr g).
-  { simpl. rewrite ieval_reval. destruct (reval cf2 funs fn e fr g) as [|[v|x] fr0 g0]; auto. }
+              end = reval_each cf2 funs clos fn (ACons e a) fr g).
+  { simpl. rewrite ieval_reval. destruct (reval cf2 funs clos fn e fr g) as [|[v|x] fr0 g0]; auto. }
   destruct e; try exact G.
   simpl. rewrite reval_postinc.
   destruct (incr_value (rd fn x fr g)) as [nv ov]. destruct (wr fn x nv fr g) as [fr' g']. apply IHa.
 Qed.
 
-Lemma icond_rcond c fr g : icond cf1 funs fn c fr g = rcond cf2 funs fn c fr g.
+Lemma icond_rcond c fr g : icond cf1 funs clos fn c fr g = rcond cf2 funs clos fn c fr g.
 Proof. unfold icond, rcond. rewrite ieval_reval. reflexivity. Qed.
 
 (* the BoolTest fast path of ForStatement *)
-Lemma icond_for_rcond c fr g : icond_for cf1 funs fn c fr g = rcond cf2 funs fn c fr g.
+Lemma icond_for_rcond c fr g : icond_for cf1 funs clos fn c fr g = rcond cf2 funs clos fn c fr g.
 Proof.
   unfold icond_for. destruct c; try apply icond_rcond. destruct o; try apply icond_rcond.
   destruct (var_int_le fn c1 c2 fr g) as [t|] eqn:E; [|apply icond_rcond].
@@ -935,50 +1058,66 @@ Section Sim.
 Variables cmi cmr : catchfn.
 Hypothesis Hcm : forall t v, cmi t v = cmr t v.
 Variable funs : list fundef.
+Variable clos : list clodef.
 
 (* a block that ends in a jump never completes normally *)
 Lemma ends_jump_not_none : forall b fuel fn stk path fr g cc fr' g',
-  ends_jump b = true -> rexec cmr funs fuel fn (resolve stk path b) fr g = Res cc fr' g' -> cc <> RNone.
+  ends_jump b = true -> rexec cmr funs clos fuel fn (resolve stk path b) fr g = Res cc fr' g' -> cc <> RNone.
 Proof.
   induction b; intros fuel fn stk path fr g cc fr' g' E R; simpl in E; try discriminate;
     (destruct fuel as [|fuel]; [rewrite rexec_0 in R; discriminate|]); cbn [resolve] in R.
   - rewrite rexec_seq in R.
-    destruct (rexec cmr funs fuel fn (resolve stk (0 :: path) b1) fr g) as [|ca fa ga] eqn:Ea; [discriminate|].
+    destruct (rexec cmr funs clos fuel fn (resolve stk (0 :: path) b1) fr g) as [|ca fa ga] eqn:Ea; [discriminate|].
     destruct ca; try (inversion R; subst; discriminate).
     eapply IHb2; eauto.
   - destruct (target stk n); [rewrite rexec_brk in R|rewrite rexec_bad in R]; inversion R; discriminate.
   - destruct (target stk n); [rewrite rexec_cnt in R|rewrite rexec_bad in R]; inversion R; discriminate.
   - destruct e as [e|].
     + rewrite rexec_return in R.
-      destruct (reval (rcallf cmr funs fuel) funs fn e fr g) as [|[v|x] f1 g1]; inversion R; discriminate.
+      destruct (reval (rcallf cmr funs clos fuel) funs clos fn e fr g) as [|[v|x] f1 g1]; inversion R; discriminate.
     + rewrite rexec_return_none in R. inversion R; discriminate.
   - rewrite rexec_throw in R.
-    destruct (reval (rcallf cmr funs fuel) funs fn e fr g) as [|[v|x] f1 g1]; inversion R; discriminate.
+    destruct (reval (rcallf cmr funs clos fuel) funs clos fn e fr g) as [|[v|x] f1 g1]; inversion R; discriminate.
 Qed.
 
 Hypothesis Hfuns : forall f d, find_fun funs f = Some d ->
   scoped 0 (fbody d) = true /\ one_default (fbody d) = true /\ clean_stmt (is_main f) (fbody d) = true.
 
+Hypothesis Hclos : forall id cd, nth_error clos id = Some cd ->
+  scoped 0 (cbody cd) = true /\ one_default (cbody cd) = true /\ forall oid, clean_stmt (is_main (clo_name oid)) (cbody cd) = true.
+
 Definition P (n : nat) := forall fn s stk path fr g,
   scoped (List.length stk) s = true -> one_default s = true -> clean_stmt (is_main fn) s = true ->
   shorter stk path ->
-  rrel stk (iexec cmi funs n fn s fr g) (rexec cmr funs n fn (resolve stk path s) fr g).
+  rrel stk (iexec cmi funs clos n fn s fr g) (rexec cmr funs clos n fn (resolve stk path s) fr g).
 
 Lemma shorter_nil path : shorter [] path.
 Proof. intros l []. Qed.
 
-Lemma callf_eq n : P n -> forall f vs g, icallf cmi funs n f vs g = rcallf cmr funs n f vs g.
+Lemma call_result_rel ci cr : crel [] ci cr -> call_result ci = rcall_result cr.
 Proof.
-  intros IH f vs g. unfold icallf, rcallf. destruct (find_fun funs f) as [d|] eqn:E; [|reflexivity].
-  destruct (Hfuns _ _ E) as (H1 & H2 & H3).
-  pose proof (IH f (fbody d) [] [] (bind_params (fparams d) vs [], []) g H1 H2 H3 (shorter_nil _)) as R.
-  destruct (iexec cmi funs n f (fbody d) (bind_params (fparams d) vs [], []) g) as [|ci fi gi];
-    destruct (rexec cmr funs n f (resolve [] [] (fbody d)) (bind_params (fparams d) vs [], []) g) as [|cr fr gr];
-    simpl in R; try contradiction; [reflexivity|].
-  destruct R as (C & _ & <-).
-  destruct ci, cr; simpl in C; try contradiction; subst; try reflexivity.
+  destruct ci, cr; simpl; intros C; try contradiction; subst; try reflexivity.
   - destruct k; simpl in C; [discriminate|]. destruct k; discriminate.
   - destruct k; simpl in C; [discriminate|]. destruct k; discriminate.
+Qed.
+
+Lemma callf_eq n : P n -> forall c vs g, icallf cmi funs clos n c vs g = rcallf cmr funs clos n c vs g.
+Proof.
+  intros IH c vs g. unfold icallf, rcallf. destruct c as [f|id oid cap].
+  - destruct (find_fun funs f) as [d|] eqn:E; [|reflexivity].
+    destruct (Hfuns _ _ E) as (H1 & H2 & H3).
+    pose proof (IH f (fbody d) [] [] (bind_params (fparams d) vs [], []) g H1 H2 H3 (shorter_nil _)) as R.
+    destruct (iexec cmi funs clos n f (fbody d) (bind_params (fparams d) vs [], []) g) as [|ci fi gi];
+      destruct (rexec cmr funs clos n f (resolve [] [] (fbody d)) (bind_params (fparams d) vs [], []) g) as [|cr fr gr];
+      simpl in R; try contradiction; [reflexivity|].
+    destruct R as (C & _ & <-). rewrite (call_result_rel _ _ C). reflexivity.
+  - destruct (nth_error clos id) as [cd|] eqn:E; [|reflexivity].
+    destruct (Hclos _ _ E) as (H1 & H2 & H3).
+    pose proof (IH (clo_name oid) (cbody cd) [] [] (bind_captured cap (bind_params (cparams cd) vs []), []) g H1 H2 (H3 oid) (shorter_nil _)) as R.
+    destruct (iexec cmi funs clos n (clo_name oid) (cbody cd) (bind_captured cap (bind_params (cparams cd) vs []), []) g) as [|ci fi gi];
+      destruct (rexec cmr funs clos n (clo_name oid) (resolve [] [] (cbody cd)) (bind_captured cap (bind_params (cparams cd) vs []), []) g) as [|cr fr gr];
+      simpl in R; try contradiction; [reflexivity|].
+    destruct R as (C & _ & <-). rewrite (call_result_rel _ _ C). reflexivity.
 Qed.
 
 Section Step.
@@ -998,15 +1137,15 @@ Lemma sim_elifs fn stk path e : forall ei i fr g,
   scoped (List.length stk) e = true -> one_default e = true -> clean_stmt (is_main fn) e = true ->
   scoped_elifs (List.length stk) ei = true -> one_default_elifs ei = true -> clean_elifs (is_main fn) ei = true ->
   shorter stk path ->
-  rrel stk (ielif cmi funs n fn e ei fr g)
-           (relif cmr funs n fn (resolve stk (1 :: path) e) (resolve_elifs stk path i ei) fr g).
+  rrel stk (ielif cmi funs clos n fn e ei fr g)
+           (relif cmr funs clos n fn (resolve stk (1 :: path) e) (resolve_elifs stk path i ei) fr g).
 Proof.
   induction ei as [|c b r IHr]; intros i fr g He1 He2 He3 H1 H2 H3 Hsh; cbn [ielif relif resolve_elifs].
   - apply IH; auto using shorter_cons.
   - cbn [scoped_elifs one_default_elifs clean_elifs] in H1, H2, H3.
     apply andb_prop in H1 as [H1a H1b]. apply andb_prop in H2 as [H2a H2b]. apply andb_prop in H3 as [H3a H3b].
-    rewrite (icond_rcond funs fn _ _ Hcf).
-    destruct (rcond (rcallf cmr funs n) funs fn c fr g) as [|[t|x] f1 g1]; simpl; auto.
+    rewrite (icond_rcond funs clos fn _ _ Hcf).
+    destruct (rcond (rcallf cmr funs clos n) funs clos fn c fr g) as [|[t|x] f1 g1]; simpl; auto.
     destruct t.
     + apply IH; auto using shorter_cons.
     + apply IHr; auto.
@@ -1016,8 +1155,8 @@ Qed.
 Lemma sim_each fn stk path k v b : forall items fr g,
   scoped (S (List.length stk)) b = true -> one_default b = true -> clean_stmt (is_main fn) b = true ->
   shorter stk path ->
-  rrel stk (ieach cmi funs n fn k v b items fr g)
-           (reach cmr funs n fn path k v (resolve (path :: stk) (0 :: path) b) items fr g).
+  rrel stk (ieach cmi funs clos n fn k v b items fr g)
+           (reach cmr funs clos n fn path k v (resolve (path :: stk) (0 :: path) b) items fr g).
 Proof.
   induction items as [|[kv vv] r IHr]; intros fr g H1 H2 H3 Hsh; cbn [ieach reach]; [simpl; auto|].
   destruct (wr fn v vv fr g) as [fr1 g1].
@@ -1032,33 +1171,33 @@ Qed.
 
 (* one switch clause that does not fall through (it is the last clause, or it ends in a jump) *)
 Lemma rrunc_unfold fn id b r fr g :
-  rrunc cmr funs n fn id (RCLDefault b r) fr g =
-  match rexec cmr funs n fn b fr g with
+  rrunc cmr funs clos n fn id (RCLDefault b r) fr g =
+  match rexec cmr funs clos n fn b fr g with
   | Fuel => Fuel
   | Res cb fr g =>
       match cb with
-      | RNone => rrunc cmr funs n fn id r fr g
+      | RNone => rrunc cmr funs clos n fn id r fr g
       | RBrk l' | RCnt l' => if lid_eqb l' id then Res RNone fr g else Res cb fr g
       | _ => Res cb fr g
       end
   end.
 Proof. reflexivity. Qed.
 Lemma rrunc_case fn id e b r fr g :
-  rrunc cmr funs n fn id (RCLCase e b r) fr g = rrunc cmr funs n fn id (RCLDefault b r) fr g.
+  rrunc cmr funs clos n fn id (RCLCase e b r) fr g = rrunc cmr funs clos n fn id (RCLDefault b r) fr g.
 Proof. reflexivity. Qed.
 
 Lemma sim_run_clause fn stk path i b r fr g :
   scoped (S (List.length stk)) b = true -> one_default b = true -> clean_stmt (is_main fn) b = true ->
   shorter stk path ->
   (match r with CLNil => true | _ => ends_jump b end) = true ->
-  rrel stk (irun_clause cmi funs n fn b fr g)
-           (rrunc cmr funs n fn path
+  rrel stk (irun_clause cmi funs clos n fn b fr g)
+           (rrunc cmr funs clos n fn path
               (RCLDefault (resolve (path :: stk) (i :: path) b) (resolve_clauses (path :: stk) path (S i) r)) fr g).
 Proof.
   intros H1 H2 H3 Hsh Hend. unfold irun_clause. rewrite rrunc_unfold.
   pose proof (IH fn b (path :: stk) (i :: path) fr g H1 H2 H3 (shorter_push _ _ _ Hsh)) as R.
-  destruct (iexec cmi funs n fn b fr g) as [|ci fi gi];
-    destruct (rexec cmr funs n fn (resolve (path :: stk) (i :: path) b) fr g) as [|cr fr' gr] eqn:ER;
+  destruct (iexec cmi funs clos n fn b fr g) as [|ci fi gi];
+    destruct (rexec cmr funs clos n fn (resolve (path :: stk) (i :: path) b) fr g) as [|cr fr' gr] eqn:ER;
     simpl in R; try contradiction; [exact I|].
   destruct R as (R & <- & <-).
   pose proof (switch_ctl_rel stk path ci cr R (shorter_neq _ _ Hsh)) as SW.
@@ -1081,8 +1220,8 @@ Proof. revert acc. induction r; simpl; intros; auto; discriminate. Qed.
 Lemma sim_default fn stk path : forall cl i fr g,
   scoped_clauses (S (List.length stk)) cl = true -> one_default_clauses cl = true ->
   clean_clauses (is_main fn) cl = true -> (count_default cl <= 1)%nat -> shorter stk path ->
-  rrel stk (match default_of cl None with Some b => irun_clause cmi funs n fn b fr g | None => Res INone fr g end)
-           (rrunc cmr funs n fn path (from_default (resolve_clauses (path :: stk) path i cl)) fr g).
+  rrel stk (match default_of cl None with Some b => irun_clause cmi funs clos n fn b fr g | None => Res INone fr g end)
+           (rrunc cmr funs clos n fn path (from_default (resolve_clauses (path :: stk) path i cl)) fr g).
 Proof.
   induction cl as [|e b r IHr|b r IHr]; intros i fr g H1 H2 H3 Hc Hsh;
     cbn [default_of resolve_clauses from_default].
@@ -1099,14 +1238,14 @@ Qed.
 
 (* the case search of SwitchStatement.GetValue *)
 Lemma sim_cases fn stk path cl0 rcl0 cv :
-  (forall fr g, rrel stk (match default_of cl0 None with Some b => irun_clause cmi funs n fn b fr g | None => Res INone fr g end)
-                         (rrunc cmr funs n fn path (from_default rcl0) fr g)) ->
+  (forall fr g, rrel stk (match default_of cl0 None with Some b => irun_clause cmi funs clos n fn b fr g | None => Res INone fr g end)
+                         (rrunc cmr funs clos n fn path (from_default rcl0) fr g)) ->
   shorter stk path ->
   forall l i fr g,
   scoped_clauses (S (List.length stk)) l = true -> one_default_clauses l = true ->
   clean_clauses (is_main fn) l = true ->
-  rrel stk (icases cmi funs n fn cl0 cv l fr g)
-           (rfind cmr funs n fn path rcl0 cv (resolve_clauses (path :: stk) path i l) fr g).
+  rrel stk (icases cmi funs clos n fn cl0 cv l fr g)
+           (rfind cmr funs clos n fn path rcl0 cv (resolve_clauses (path :: stk) path i l) fr g).
 Proof.
   intros D Hsh. induction l as [|e b r IHr|b r IHr]; intros i fr g H1 H2 H3;
     cbn [icases rfind resolve_clauses].
@@ -1114,8 +1253,8 @@ Proof.
   - cbn [scoped_clauses one_default_clauses clean_clauses] in *.
     apply andb_prop in H1 as [H1 H1r]. apply andb_prop in H2 as [H2 H2r].
     apply andb_prop in H3 as [H3 H3r]. apply andb_prop in H3 as [H3e H3].
-    rewrite (ieval_reval funs fn _ _ Hcf).
-    destruct (reval (rcallf cmr funs n) funs fn e fr g) as [|[v|x] f1 g1]; [simpl; auto| |simpl; auto].
+    rewrite (ieval_reval funs clos fn _ _ Hcf).
+    destruct (reval (rcallf cmr funs clos n) funs clos fn e fr g) as [|[v|x] f1 g1]; [simpl; auto| |simpl; auto].
     destruct (switch_match cv v).
     + rewrite rrunc_case. apply sim_run_clause; auto.
     + apply IHr; auto.
@@ -1152,7 +1291,7 @@ Lemma sim_finally fn stk path f ri rr :
     match ri with
     | Fuel => Fuel
     | Res c fr3 g3 =>
-        match iexec cmi funs n fn f fr3 (mark CFin g3) with
+        match iexec cmi funs clos n fn f fr3 (mark CFin g3) with
         | Fuel => Fuel
         | Res INone fr4 g4 => Res c fr4 g4
         | Res cf fr4 g4 => Res cf fr4 g4
@@ -1161,7 +1300,7 @@ Lemma sim_finally fn stk path f ri rr :
     match rr with
     | Fuel => Fuel
     | Res c fr3 g3 =>
-        match rexec cmr funs n fn (resolve stk (1 :: path) f) fr3 (mark CFin g3) with
+        match rexec cmr funs clos n fn (resolve stk (1 :: path) f) fr3 (mark CFin g3) with
         | Fuel => Fuel
         | Res RNone fr4 g4 => Res c fr4 g4
         | Res cf fr4 g4 => Res cf fr4 g4
@@ -1189,27 +1328,31 @@ Proof.
     destruct ci, cr; simpl in R; try contradiction; try (simpl; auto; fail).
     apply IH; auto using shorter_cons.
   - (* SExpr *)
-    rewrite iexec_expr, rexec_expr, (ieval_reval funs fn _ _ Hcf).
-    destruct (reval (rcallf cmr funs n) funs fn e fr g) as [|[v|x] f1 g1]; simpl; auto.
+    rewrite iexec_expr, rexec_expr, (ieval_reval funs clos fn _ _ Hcf).
+    destruct (reval (rcallf cmr funs clos n) funs clos fn e fr g) as [|[v|x] f1 g1]; simpl; auto.
   - (* SEcho *)
-    rewrite iexec_echo, rexec_echo, (ieval_reval funs fn _ _ Hcf).
-    destruct (reval (rcallf cmr funs n) funs fn e fr g) as [|[v|x] f1 g1]; simpl; auto.
+    rewrite iexec_echo, rexec_echo, (ieval_reval funs clos fn _ _ Hcf).
+    destruct (reval (rcallf cmr funs clos n) funs clos fn e fr g) as [|[v|x] f1 g1]; simpl; auto.
   - (* SPush *)
-    rewrite iexec_push, rexec_push, (ieval_reval funs fn _ _ Hcf).
-    destruct (reval (rcallf cmr funs n) funs fn e fr g) as [|[v|y] f1 g1]; try (simpl; auto; fail).
+    rewrite iexec_push, rexec_push, (ieval_reval funs clos fn _ _ Hcf).
+    destruct (reval (rcallf cmr funs clos n) funs clos fn e fr g) as [|[v|y] f1 g1]; try (simpl; auto; fail).
     destruct (wr fn x (arr_push (rd fn x f1 g1) v) f1 g1). simpl. auto.
+  - (* SSetIdx *)
+    rewrite iexec_setidx, rexec_setidx, (ieval_reval funs clos fn _ _ Hcf).
+    destruct (reval (rcallf cmr funs clos n) funs clos fn e fr g) as [|[v|y] f1 g1]; try (simpl; auto; fail).
+    destruct (wr fn x (arr_set (rd fn x f1 g1) (VInt k) v) f1 g1). simpl. auto.
   - (* SIf *)
     apply andb_prop in Hs as [Hs Hs3]. apply andb_prop in Hs as [Hs1 Hs2].
     apply andb_prop in Ho as [Ho Ho3]. apply andb_prop in Ho as [Ho1 Ho2].
     apply andb_prop in Hc as [Hc Hc3]. apply andb_prop in Hc as [Hc1 Hc2].
-    rewrite iexec_if, rexec_if, (icond_rcond funs fn _ _ Hcf).
-    destruct (rcond (rcallf cmr funs n) funs fn c fr g) as [|[t|x] f1 g1]; try (simpl; auto; fail).
+    rewrite iexec_if, rexec_if, (icond_rcond funs clos fn _ _ Hcf).
+    destruct (rcond (rcallf cmr funs clos n) funs clos fn c fr g) as [|[t|x] f1 g1]; try (simpl; auto; fail).
     cbn [thr rthr]. destruct t.
     + apply IH; auto using shorter_cons.
     + apply sim_elifs; auto.
   - (* SWhile *)
-    rewrite iexec_while, rexec_while, (icond_rcond funs fn _ _ Hcf).
-    destruct (rcond (rcallf cmr funs n) funs fn c fr g) as [|[t|x] f1 g1]; try (simpl; auto; fail).
+    rewrite iexec_while, rexec_while, (icond_rcond funs clos fn _ _ Hcf).
+    destruct (rcond (rcallf cmr funs clos n) funs clos fn c fr g) as [|[t|x] f1 g1]; try (simpl; auto; fail).
     cbn [thr rthr]. destruct t; [|simpl; auto].
     pose proof (IH fn s (path :: stk) (0 :: path) f1 g1 Hs Ho Hc (shorter_push _ _ _ Hsh)) as R.
     split_rel R ci fi gi cr fr' gr.
@@ -1223,32 +1366,32 @@ Proof.
     split_rel R ci fi gi cr fr' gr.
     pose proof (loop_ctl_rel stk path ci cr R (shorter_neq _ _ Hsh)) as L.
     destruct (loop_ctl ci), (rloop_ctl path cr); try contradiction; [|simpl; auto].
-    rewrite (icond_rcond funs fn _ _ Hcf).
-    destruct (rcond (rcallf cmr funs n) funs fn c fi gi) as [|[t|x] f1 g1]; try (simpl; auto; fail).
+    rewrite (icond_rcond funs clos fn _ _ Hcf).
+    destruct (rcond (rcallf cmr funs clos n) funs clos fn c fi gi) as [|[t|x] f1 g1]; try (simpl; auto; fail).
     cbn [thr rthr]. destruct t; [|simpl; auto].
     apply (IH fn (SDoWhile s c) stk path); auto.
   - (* SFor *)
-    rewrite iexec_for, rexec_for, (ieval_each_reval funs fn _ _ Hcf).
-    destruct (reval_each (rcallf cmr funs n) funs fn init fr g) as [|[x|] f0 g0]; try (simpl; auto; fail).
-    rewrite (icond_for_rcond funs fn _ _ Hcf).
-    destruct (rcond (rcallf cmr funs n) funs fn c f0 g0) as [|[t|x] f1 g1]; try (simpl; auto; fail).
+    rewrite iexec_for, rexec_for, (ieval_each_reval funs clos fn _ _ Hcf).
+    destruct (reval_each (rcallf cmr funs clos n) funs clos fn init fr g) as [|[x|] f0 g0]; try (simpl; auto; fail).
+    rewrite (icond_for_rcond funs clos fn _ _ Hcf).
+    destruct (rcond (rcallf cmr funs clos n) funs clos fn c f0 g0) as [|[t|x] f1 g1]; try (simpl; auto; fail).
     cbn [thr rthr]. destruct t; [|simpl; auto].
     pose proof (IH fn s (path :: stk) (0 :: path) f1 g1 Hs Ho Hc (shorter_push _ _ _ Hsh)) as R.
     split_rel R ci fi gi cr fr' gr.
     pose proof (loop_ctl_rel stk path ci cr R (shorter_neq _ _ Hsh)) as L.
     destruct (loop_ctl ci), (rloop_ctl path cr); try contradiction; [|simpl; auto].
-    rewrite (ieval_incs_reval funs fn _ _ Hcf).
-    destruct (reval_each (rcallf cmr funs n) funs fn inc fi gi) as [|[x|] f2 g2]; try (simpl; auto; fail).
+    rewrite (ieval_incs_reval funs clos fn _ _ Hcf).
+    destruct (reval_each (rcallf cmr funs clos n) funs clos fn inc fi gi) as [|[x|] f2 g2]; try (simpl; auto; fail).
     apply (IH fn (SFor ANil c inc s) stk path); auto.
   - (* SForeach *)
-    rewrite iexec_foreach, rexec_foreach, (ieval_reval funs fn _ _ Hcf).
-    destruct (reval (rcallf cmr funs n) funs fn arr fr g) as [|[av|x] f1 g1]; try (simpl; auto; fail).
+    rewrite iexec_foreach, rexec_foreach, (ieval_reval funs clos fn _ _ Hcf).
+    destruct (reval (rcallf cmr funs clos n) funs clos fn arr fr g) as [|[av|x] f1 g1]; try (simpl; auto; fail).
     destruct (foreach_items av) as [items|]; [|simpl; auto].
     apply sim_each; auto.
   - (* SSwitch *)
     apply andb_prop in Ho as [Hd Ho]. apply Nat.leb_le in Hd.
-    rewrite iexec_switch, rexec_switch, (ieval_reval funs fn _ _ Hcf).
-    destruct (reval (rcallf cmr funs n) funs fn c fr g) as [|[cv|x] f1 g1]; try (simpl; auto; fail).
+    rewrite iexec_switch, rexec_switch, (ieval_reval funs clos fn _ _ Hcf).
+    destruct (reval (rcallf cmr funs clos n) funs clos fn c fr g) as [|[cv|x] f1 g1]; try (simpl; auto; fail).
     apply sim_cases; auto.
     intros fr0 g0. apply sim_default; auto.
   - (* SBreak *)
@@ -1257,8 +1400,8 @@ Proof.
     destruct (target_in_scope _ _ Hs) as [l Hl]. rewrite Hl, iexec_continue, rexec_cnt. simpl. auto.
   - (* SReturn *)
     destruct e as [e|].
-    + rewrite iexec_return, rexec_return, (ieval_reval funs fn _ _ Hcf).
-      destruct (reval (rcallf cmr funs n) funs fn e fr g) as [|[v|x] f1 g1]; simpl; auto.
+    + rewrite iexec_return, rexec_return, (ieval_reval funs clos fn _ _ Hcf).
+      destruct (reval (rcallf cmr funs clos n) funs clos fn e fr g) as [|[v|x] f1 g1]; simpl; auto.
     + rewrite iexec_return_none, rexec_return_none. simpl. auto.
   - (* SStatic *)
     rewrite iexec_static, rexec_static.
@@ -1280,8 +1423,8 @@ Proof.
     destruct (match xv with Some v1 => wr fn v1 v fi gi | None => (fi, gi) end) as [fr2 g2].
     apply IH; auto using shorter_cons.
   - (* SThrow *)
-    rewrite iexec_throw, rexec_throw, (ieval_reval funs fn _ _ Hcf).
-    destruct (reval (rcallf cmr funs n) funs fn e fr g) as [|[v|x] f1 g1]; simpl; auto.
+    rewrite iexec_throw, rexec_throw, (ieval_reval funs clos fn _ _ Hcf).
+    destruct (reval (rcallf cmr funs clos n) funs clos fn e fr g) as [|[v|x] f1 g1]; simpl; auto.
 Qed.
 End Step.
 
@@ -1303,10 +1446,26 @@ Lemma funs_ok p : wf p = true -> clean p = true ->
   scoped 0 (fbody d) = true /\ one_default (fbody d) = true /\ clean_stmt (is_main f) (fbody d) = true.
 Proof.
   unfold wf, clean. intros W C f d E.
-  apply andb_prop in W as [_ W]. apply andb_prop in C as [_ C].
+  apply andb_prop in W as [W _]. apply andb_prop in W as [_ W].
+  apply andb_prop in C as [C _]. apply andb_prop in C as [_ C].
   pose proof (forallb_find _ _ _ _ W E) as W1. pose proof (forallb_find _ _ _ _ C E) as C1. simpl in W1, C1.
   unfold wf_body in W1. apply andb_prop in W1 as [S O].
   rewrite (find_fun_name _ _ _ E) in C1. auto.
+Qed.
+
+Lemma is_main_clo oid : is_main (clo_name oid) = false.
+Proof. reflexivity. Qed.
+
+Lemma clos_ok p : wf p = true -> clean p = true ->
+  forall id cd, nth_error (closures p) id = Some cd ->
+  scoped 0 (cbody cd) = true /\ one_default (cbody cd) = true /\
+  forall oid, clean_stmt (is_main (clo_name oid)) (cbody cd) = true.
+Proof.
+  unfold wf, clean. intros W C id cd E. apply nth_error_In in E.
+  apply andb_prop in W as [_ W]. apply andb_prop in C as [_ C].
+  rewrite forallb_forall in W, C. specialize (W _ E). specialize (C _ E).
+  unfold wf_body in W. apply andb_prop in W as [S O]. apply andb_prop in C as [C1 _].
+  split; [exact S|]. split; [exact O|]. intros oid. rewrite is_main_clo. exact C1.
 Qed.
 
 Lemma impl_refines_ref_l : forall cmi cmr, (forall t v, cmi t v = cmr t v) ->
@@ -1314,12 +1473,13 @@ Lemma impl_refines_ref_l : forall cmi cmr, (forall t v, cmi t v = cmr t v) ->
   run_impl cmi fuel p = run_ref cmr fuel p.
 Proof.
   intros cmi cmr Hcm fuel p W C. unfold run_impl, run_ref, irun, rrun.
-  pose proof (funs_ok p W C) as HF.
-  unfold wf, clean in W, C. apply andb_prop in W as [W _]. apply andb_prop in C as [C _].
+  pose proof (funs_ok p W C) as HF. pose proof (clos_ok p W C) as HC.
+  unfold wf, clean in W, C. apply andb_prop in W as [W _]. apply andb_prop in W as [W _].
+  apply andb_prop in C as [C _]. apply andb_prop in C as [C _].
   unfold wf_body in W. apply andb_prop in W as [S O].
-  pose proof (sim cmi cmr Hcm (funcs p) HF fuel "" (main p) [] [] empty_frame empty_glob S O C (shorter_nil _)) as R.
-  destruct (iexec cmi (funcs p) fuel "" (main p) empty_frame empty_glob) as [|ci fi gi];
-    destruct (rexec cmr (funcs p) fuel "" (resolve [] [] (main p)) empty_frame empty_glob) as [|cr fr gr];
+  pose proof (sim cmi cmr Hcm (funcs p) (closures p) HF HC fuel "" (main p) [] [] empty_frame empty_glob S O C (shorter_nil _)) as R.
+  destruct (iexec cmi (funcs p) (closures p) fuel "" (main p) empty_frame empty_glob) as [|ci fi gi];
+    destruct (rexec cmr (funcs p) (closures p) fuel "" (resolve [] [] (main p)) empty_frame empty_glob) as [|cr fr gr];
     simpl in R; try contradiction; [reflexivity|].
   destruct R as (R & _ & <-).
   destruct ci, cr; simpl in R; try contradiction; reflexivity.
@@ -1331,18 +1491,18 @@ Lemma exits_named_l : forall cmi cmr, (forall t v, cmi t v = cmr t v) ->
   forall fuel fn s stk path fr g,
   scoped (List.length stk) s = true -> one_default s = true -> clean_stmt (is_main fn) s = true ->
   shorter stk path ->
-  rrel stk (iexec cmi (funcs p) fuel fn s fr g) (rexec cmr (funcs p) fuel fn (resolve stk path s) fr g).
-Proof. intros cmi cmr Hcm p W C fuel. apply sim; auto. apply funs_ok; auto. Qed.
+  rrel stk (iexec cmi (funcs p) (closures p) fuel fn s fr g) (rexec cmr (funcs p) (closures p) fuel fn (resolve stk path s) fr g).
+Proof. intros cmi cmr Hcm p W C fuel. apply sim; auto. apply funs_ok; auto. apply clos_ok; auto. Qed.
 
 (* fast paths of the implementation, stated on ImplSem alone: whenever a fast path fires it
    yields what the node it replaced yields *)
-Lemma ieval_self cf funs fn e fr g : ieval cf funs fn e fr g = reval cf funs fn e fr g.
+Lemma ieval_self cf funs clos fn e fr g : ieval cf funs clos fn e fr g = reval cf funs clos fn e fr g.
 Proof. apply ieval_reval. reflexivity. Qed.
 
-Lemma fast_assign_sound_l cf funs fn x r fr g z :
+Lemma fast_assign_sound_l cf funs clos fn x r fr g z :
   fast_assign fn r fr g = Some z ->
-  ieval cf funs fn r fr g = Res (EV (VInt z)) fr g /\
-  ieval cf funs fn (EAssign x r) fr g =
+  ieval cf funs clos fn r fr g = Res (EV (VInt z)) fr g /\
+  ieval cf funs clos fn (EAssign x r) fr g =
     (let '(fr', g') := wr fn x (VInt z) fr g in Res (EV (VInt z)) fr' g').
 Proof.
   intros H. split.
@@ -1350,42 +1510,42 @@ Proof.
   - rewrite ieval_assign, H. reflexivity.
 Qed.
 
-Lemma var_int_le_sound_l cf funs fn a b fr g t :
+Lemma var_int_le_sound_l cf funs clos fn a b fr g t :
   var_int_le fn a b fr g = Some t ->
-  islow funs fn cf Le a b fr g = Res (EV (VBool t)) fr g.
+  islow funs clos fn cf Le a b fr g = Res (EV (VBool t)) fr g.
 Proof.
   destruct a; cbn [var_int_le]; try discriminate. destruct b; try discriminate.
   destruct v; try discriminate. destruct (rd fn x fr g) eqn:E; try discriminate.
   intros [= <-]. unfold islow.
-  change (ieval cf funs fn (EVar x) fr g) with (Res (EV (rd fn x fr g)) fr g). rewrite E.
-  change (ieval cf funs fn (ELit (VInt z)) fr g) with (Res (EV (VInt z)) fr g). reflexivity.
+  change (ieval cf funs clos fn (EVar x) fr g) with (Res (EV (rd fn x fr g)) fr g). rewrite E.
+  change (ieval cf funs clos fn (ELit (VInt z)) fr g) with (Res (EV (VInt z)) fr g). reflexivity.
 Qed.
 
-Lemma stmt_incr_sound_l cf funs fn a fr g :
-  ieval_incs cf funs fn a fr g = ieval_each cf funs fn a fr g.
+Lemma stmt_incr_sound_l cf funs clos fn a fr g :
+  ieval_incs cf funs clos fn a fr g = ieval_each cf funs clos fn a fr g.
 Proof.
-  rewrite (ieval_incs_reval funs fn cf cf (fun _ _ _ => eq_refl)).
+  rewrite (ieval_incs_reval funs clos fn cf cf (fun _ _ _ => eq_refl)).
   symmetry. apply ieval_each_reval. reflexivity.
 Qed.
 
-Lemma bool_test_sound_l cf funs fn c fr g :
-  icond_for cf funs fn c fr g = icond cf funs fn c fr g.
+Lemma bool_test_sound_l cf funs clos fn c fr g :
+  icond_for cf funs clos fn c fr g = icond cf funs clos fn c fr g.
 Proof.
-  rewrite (icond_for_rcond funs fn cf cf (fun _ _ _ => eq_refl)).
+  rewrite (icond_for_rcond funs clos fn cf cf (fun _ _ _ => eq_refl)).
   symmetry. apply icond_rcond. reflexivity.
 Qed.
 
 (* call frames: the callee starts from its parameters alone, the caller's frame is what the
    argument evaluation left *)
-Lemma call_frames_l cf funs fn f a fr g o fr' g' :
-  ieval cf funs fn (ECall f a) fr g = Res o fr' g' ->
-  (exists x, ieval_args cf funs fn a fr g = Res (inr x) fr' g' /\ o = EX x) \/
+Lemma call_frames_l cf funs clos fn f a fr g o fr' g' :
+  ieval cf funs clos fn (ECall f a) fr g = Res o fr' g' ->
+  (exists x, ieval_args cf funs clos fn a fr g = Res (inr x) fr' g' /\ o = EX x) \/
   (find_fun funs f = None /\ fr' = fr /\ g' = g) \/
-  (exists vs g1, ieval_args cf funs fn a fr g = Res (inl vs) fr' g1 /\ cf f vs g1 = Some (o, g')).
+  (exists vs g1, ieval_args cf funs clos fn a fr g = Res (inl vs) fr' g1 /\ cf (CFun f) vs g1 = Some (o, g')).
 Proof.
   rewrite ieval_call. destruct (find_fun funs f) eqn:E.
-  - destruct (ieval_args cf funs fn a fr g) as [|[vs|x] f1 g1] eqn:EA; try discriminate.
-    + destruct (cf f vs g1) as [[o1 g2]|] eqn:EC; try discriminate.
+  - destruct (ieval_args cf funs clos fn a fr g) as [|[vs|x] f1 g1] eqn:EA; try discriminate.
+    + destruct (cf (CFun f) vs g1) as [[o1 g2]|] eqn:EC; try discriminate.
       intros [= <- <- <-]. right. right. eauto.
     + intros [= <- <- <-]. left. eauto.
   - intros [= <- <- <-]. right. left. auto.
@@ -1394,7 +1554,7 @@ Qed.
 (* ---------- the recorded defect classes: witnesses that ImplSem (= the code) differs ---------- *)
 Definition lit (z : Z) := ELit (VInt z).
 Definition str (s : string) := ELit (VStr s).
-Definition P0 (m : stmt) : prog := {| funcs := []; main := m |}.
+Definition P0 (m : stmt) : prog := {| funcs := []; closures := []; main := m |}.
 
 (* switch (1) { case 1: echo "a"; case 2: echo "b"; } *)
 Definition w_fallthrough : prog :=
